@@ -20,7 +20,7 @@ import sys
 import threading
 import time
 
-WATCHDOG_S = 20.0
+WATCHDOG_S = 120.0
 
 
 class Deadlock(Exception):
